@@ -730,4 +730,50 @@ def resolveMultiColumn (name : Str) (cols : List Str) : List Str :=
     let m := cols.filter (fun c => (name ++ [columnSep]).isPrefixOf c)
     if m.isEmpty then [name] else (m.eraseDups).mergeSort strLe
 
+/-! ## 10. Well-formed chains (decidable): the generated vocabulary -/
+
+/-- a source name: non-empty, free of `__`, `&` and `~` (so no suffix pattern - all start with `.*__` - can match it) -/
+def srcOk (s : Str) : Bool := !s.isEmpty && !hasInfix sep2 s && !s.contains inputSep && !s.contains columnSep
+
+/-- the parameters of an operation come from the group's vocabulary, in the shape its suffix is written with -/
+def opParamsOk (g : Group) (ps : List Param) : Bool :=
+  if g.name == "AggregatedFeatureGroup".toList then
+    match ps with | [.s t] => (vocabOf g "AGGREGATION_TYPES").contains t | _ => false
+  else if g.name == "MissingValueFeatureGroup".toList then
+    match ps with | [.s t] => (vocabOf g "IMPUTATION_METHODS").contains t | _ => false
+  else if g.name == "NodeCentralityFeatureGroup".toList then
+    match ps with | [.s t] => (vocabOf g "CENTRALITY_TYPES").contains t | _ => false
+  else if g.name == "GeoDistanceFeatureGroup".toList then
+    match ps with | [.s t] => (vocabOf g "DISTANCE_TYPES").contains t | _ => false
+  else if g.name == "ScalingFeatureGroup".toList then
+    match ps with | [.s t] => (vocabOf g "SUPPORTED_SCALERS").contains t | _ => false
+  else if g.name == "TimeWindowFeatureGroup".toList then
+    match ps with
+    | [.s f, .n n, .s u] => (vocabOf g "WINDOW_FUNCTIONS").contains f && decide (0 < n) && (vocabOf g "TIME_UNITS").contains u
+    | _ => false
+  else if g.name == "TextCleaningFeatureGroup".toList then ps.isEmpty   -- its operations are options, never part of a name
+  else false
+
+def Op.ok (op : Op) : Bool :=
+  match groupAt op.gid with
+  | some g => modelled g && opParamsOk g op.params
+  | none => false
+
+def Op.arityOk (op : Op) (n : Nat) : Bool :=
+  match groupAt op.gid with
+  | some g => g.minIn ≤ n && (match g.maxIn with | some m => n ≤ m | none => true)
+  | none => false
+
+def allDistinct : List Str → Bool
+  | [] => true
+  | a :: r => !r.contains a && allDistinct r
+
+/-- well-formed chain: one source under a spine of vocabulary operations; only the first operation may take several
+(distinct) sources, and exactly as many as its group allows -/
+def Chain.wf : Chain → Bool
+  | .src [n] => srcOk n
+  | .src _ => false
+  | .step (.src ns) op => ns.all srcOk && !ns.isEmpty && allDistinct ns && op.ok && op.arityOk ns.length
+  | .step c op => c.wf && op.ok && op.arityOk 1
+
 end Chain
